@@ -18,14 +18,14 @@ import (
 
 type C07Case struct {
 	SP          h.SPConfig `json:"sp"`
-	Window      string     `json:"window"`   // validity window of BOTH the SP encryption cert and the IdP cert in this case
-	ClockPos    string     `json:"clockPos"` // position of the clock relative to that window
-	SPCert      string     `json:"spCert"`   // valid | empty | garbage | nocert-tls
+	Window      string     `json:"window"`    // validity window of BOTH the SP encryption cert and the IdP cert in this case
+	ClockPos    string     `json:"clockPos"`  // position of the clock relative to that window
+	SPCert      string     `json:"spCert"`    // valid | empty | garbage | nocert-tls
 	StoreKind   string     `json:"storeKind"` // tls | custom
-	Plain       string     `json:"plain"`    // signed | unsigned | forged | attacker-signed | non-assertion | nested-wrapper
-	Place       string     `json:"place"`    // direct | nested | in-forged
-	RespSig     string     `json:"respSig"`  // none | trusted | attacker
-	Recip       string     `json:"recip"`    // absent | sp | other | undecodable | sp-otherwindow
+	Plain       string     `json:"plain"`     // signed | unsigned | forged | attacker-signed | non-assertion | nested-wrapper
+	Place       string     `json:"place"`     // direct | nested | in-forged
+	RespSig     string     `json:"respSig"`   // none | trusted | attacker
+	Recip       string     `json:"recip"`     // absent | sp | other | undecodable | sp-otherwindow
 	Enc         h.EncSpec  `json:"enc"`
 	Encoded     string     `json:"encoded"`
 	GenuineName string     `json:"genuineName"`
@@ -302,8 +302,11 @@ func checkC07(c C07Case) h.Outcome {
 	return o
 }
 
-func TestC07(t *testing.T)        { h.RunProp(t, "C07", genC07, checkC07) }
-func TestC07_Replay(t *testing.T) { h.RunReplay(t, "C07", checkC07); h.RunReplay(t, "C07.attack", checkC01) }
+func TestC07(t *testing.T) { h.RunProp(t, "C07", genC07, checkC07) }
+func TestC07_Replay(t *testing.T) {
+	h.RunReplay(t, "C07", checkC07)
+	h.RunReplay(t, "C07.attack", checkC01)
+}
 
 // TestC07_PAttack: general attacker programs against an SP that has an encryption key, with encryption-heavy operators.
 func TestC07_PAttack(t *testing.T) {
